@@ -75,7 +75,8 @@ def rule_exact(ctx, rule):
         raise AnalysisError('%s: operator_H012 is no longer summarisable: %s' % (rule, ex))
     # the constants the init routine stores: sin(OMEGA*(-dt/2)), tan(OMEGA*(-dt/4))
     tu = cfront.load_tu('integrator_sei.c')
-    init = tu.func('reb_integrator_sei_init')
+    from .. import normal
+    init = normal.dealiased(tu.func('reb_integrator_sei_init'))     # ri = &(r->ri_sei), dt = r->dt read as what they name
     dts = sp.Symbol('dt', real=True)
     env = {'r': {'ri_sei': {'OMEGA': O, 'OMEGAZ': Oz}, 'dt': dts}}
     want = {'sindt': sp.sin(-O * dts / 2), 'tandt': sp.tan(-O * dts / 4), 'sindtz': sp.sin(-Oz * dts / 2), 'tandtz': sp.tan(-Oz * dts / 4)}
